@@ -18,7 +18,7 @@ RULE = ('cases: random/boundary graphs n<=9 x delay/duration tables drawn from v
 ASSUMPTIONS = ['user functions are deterministic tables (so the first-passage solution is unique up to ties in the infector)']
 BUDGET = {'quick': 150, 'thorough': 1200}
 CHUNK = {'quick': 40, 'thorough': 200}
-REQUIRED = ['sim_nodes_checked', 'infectors_checked', 'array_rows_checked', 'builder_arcs_checked', 'markov_builder_draws_checked',
+REQUIRED = ['fast_SIR_weighted_path_runs', 'sim_nodes_checked', 'infectors_checked', 'array_rows_checked', 'builder_arcs_checked', 'markov_builder_draws_checked',
             'get_infected_checked', 'tie_cases', 'one_shot_recovered_iterables']
 VALUE_SETS = {'small_int': [0, 1, 2], 'ties_inf': [0.5, 1, 1, 2, float('inf')], 'zeros': [0, 0, 1], 'cont': None, 'dyadic': [0.25, 0.5, 0.75, 1.5],
               # values one unit in the last place apart: 0.1+0.2 > 0.3, 0.2+0.4 > 0.6, 0.7+0.1 < 0.8 - "delay <= duration" is an exact comparison
@@ -32,6 +32,16 @@ def gen_cases(tier, seed):
     n = {'quick': 21000, 'thorough': 700000}[tier]
     out = []
     kinds = ['sim', 'sim', 'sim', 'sim', 'builder', 'markov_builder', 'get_infected']
+    for j in range(600 if tier == 'quick' else 20000):
+        cs = case_seed(seed, PID + 'fsir', j)
+        r = random.Random(cs)
+        desc = gen.random_graph(r, 2, 10)
+        desc['labels'] = r.choice(gen.LABEL_SCHEMES)
+        c = simcase.make_markov_case(r, desc, weight_mode=r.choice(['edge', 'both', 'edge', 'none']), tmins=(0, -3, 2.5, 7.25))
+        if c['wm'] == 'none':
+            c['tau'], c['gamma'] = r.choice([(0.0, 1.0), (1.0, 0.0)])       # zero-rate path
+        c.update({'kind': 'fast_sir', 'seed': cs, 'tmax': r.choice(['inf', 'inf', c['tmin'] + 1.5])})
+        out.append(c)
     for k in range(n):
         cs = case_seed(seed, PID, k)
         r = random.Random(cs)
@@ -325,9 +335,42 @@ def run_markov_builder(case, res, via_get_infected=False):
         res['sample'] = {'kind': name, 'graph': case['graph'], 'tau': tau, 'gamma': gamma, 'arcs_kept': len(arcs)}
 
 
+def run_fast_sir(case, res):
+    """fast_SIR on its weighted / zero-rate path: the returned times and infectors must be the first-passage percolation (from tmin) of
+    the very exponential draws the run made (step-law monitor of C01, used here for the percolation clause)"""
+    import EoN
+    from .. import markov
+    G, lab, tw, rw, I0, R0 = simcase.build(case)
+    tmax = float('inf') if case['tmax'] == 'inf' else case['tmax']
+    fails, counters = [], {}
+    try:
+        with rngprobe.monitor(seed=case['seed']) as px:
+            sim = EoN.fast_SIR(G, case['tau'], case['gamma'], initial_infecteds=list(I0), initial_recovereds=list(R0), tmin=case['tmin'], tmax=tmax,
+                               transmission_weight=tw, recovery_weight=rw, return_full_data=True)
+        markov.e2_fast_sir(G, case['tau'], case['gamma'], tw, rw, I0, R0, case['tmin'], tmax, px.log, sim, fails, counters)
+    except markov.ParseError as e:
+        res['inconclusive'] = 'draw protocol of fast_SIR not recognised: %s' % e
+        return
+    except Exception as e:
+        viol(res, 'fast_SIR|weighted_path|exception:%s' % simcase.exc_key(e), {'err': repr(e)})
+        return
+    bump(res, 'fast_SIR_weighted_path_runs')
+    t = list(sim.t())
+    if t and t[0] != case['tmin']:
+        fails.append(('first_time_is_tmin', {'t0': t[0], 'tmin': case['tmin']}))
+    for pred, det in fails[:3]:
+        viol(res, 'fast_SIR|%s|%s' % (case['wm'], pred), det)
+    if len(sim.transmissions()) > len(I0):
+        res['nontrivial'] = 'fast_sir:%s:%s:%s' % (gen.iso_key(case['graph']), case['wm'], case['tmin'])
+        res['sample'] = {'kind': 'fast_sir', 'graph': case['graph'], 'tau': case['tau'], 'gamma': case['gamma'], 'tmin': case['tmin'], 'infections': len(sim.transmissions())}
+
+
 def run_case(case):
     res = new_result()
     k = case['kind']
+    if k == 'fast_sir':
+        run_fast_sir(case, res)
+        return res
     if k == 'sim':
         run_sim(case, res)
     elif k == 'builder':
